@@ -86,6 +86,12 @@ pub struct Plan {
     /// fast paths of std's locks) between two atomic-point preemptions (0 = none).
     #[serde(default, skip_serializing_if = "is_zero")]
     pub atomic_yield_mean: u32,
+    /// Threads engine, conflict-directed holds: mean number of atomic operations *through
+    /// which callers can communicate* (static or cross-thread address, written before or
+    /// being written) between two self-parkings of a running call (0 = none). A parked caller
+    /// stays parked until another caller reaches the same address.
+    #[serde(default, skip_serializing_if = "is_zero")]
+    pub atomic_hold_mean: u32,
     /// Fault `clock`: nanoseconds the simulated clock advances per reading (0 = the
     /// reference's 1 µs). A large step models a stalled or heavily loaded machine.
     #[serde(default, skip_serializing_if = "is_zero64")]
